@@ -57,9 +57,41 @@ pub fn judge_rebackup(t: &Tree, opts: &BOpts, tag: &str, scratch: &Scratch) -> V
             ),
         ));
     }
+    // A third backup of the still unchanged tree under different settings: unchanged files keep
+    // their recorded addresses whatever the settings, so again nothing is written.
+    let other = BOpts::new(
+        if opts.hunk == 1 { 1000 } else { 1 },
+        if opts.block == 4 { 8 } else { 4 },
+        if opts.cap == 3 { 8 } else { 3 },
+    );
+    let icpt3 = Icpt::new(&arch, Plan::none());
+    let out3 = run::do_backup(&arch, &src, &other, Some(&icpt3), Flavor::Current);
+    let log3 = icpt3.take_log();
+    let writes3 = log3.iter().filter(|r| r.verb == Verb::Write && r.path.starts_with("d/")).count();
+    match out3.ok_stats() {
+        Some(s3) if s3.errors == 0 => {
+            if writes3 != 0 || s3.written_blocks != 0 {
+                v.push(Violation::new(
+                    "C14:unchanged-tree-writes-blocks-under-other-settings",
+                    format!("{tag}: third backup with {} wrote {writes3} blocks", other.describe()),
+                ));
+            }
+        }
+        _ => v.push(Violation::new(
+            "C14:second-backup-of-unchanged-tree-failed",
+            format!("{tag}: third backup: {}", out3.describe()),
+        )),
+    }
     let snap = Snap::load(&arch);
     let e0 = snap.band_entries(0);
     let e1 = snap.band_entries(1);
+    let a2: Vec<_> = snap.band_entries(2).into_iter().map(|e| (e.apath, e.addrs)).collect();
+    if a2.iter().map(|(p, a)| (p, a)).ne(e0.iter().map(|e| (&e.apath, &e.addrs))) {
+        v.push(Violation::new(
+            "C14:unchanged-tree-records-different-addresses-under-other-settings",
+            format!("{tag}: third backup with {}", other.describe()),
+        ));
+    }
     let a0: Vec<_> = e0.iter().map(|e| (&e.apath, &e.addrs)).collect();
     let a1: Vec<_> = e1.iter().map(|e| (&e.apath, &e.addrs)).collect();
     if a0 != a1 {
